@@ -251,3 +251,13 @@ def fold_kept(tree, args):
     for node in args[1:]:
         mrca = tree.get_mrca(mrca, node)
     return mrca
+
+
+def uint_arith(sample_set_sizes, flattened):
+    n = sample_set_sizes
+    return 2 * (n**2 + n + 3) / (9 * n * (n - 1))
+
+
+def uint_arith_converted(sample_set_sizes, flattened):
+    n = np.array(sample_set_sizes, dtype=np.float64)
+    return 2 * (n**2 + n + 3) / (9 * n * (n - 1))
